@@ -1929,10 +1929,13 @@ class _Streamer(mcasm.Streamer):
         """
         expr = fixup.value
 
-        # LLVM will automatically add a negative value to make the expression
-        # be PC-relative. We don't care about that and just want to unwrap it.
+        # LLVM's x86 emitter will automatically add a negative value to make
+        # the expression be PC-relative. We don't care about that and just
+        # want to unwrap it.
         if (
-            fixup.kind_info.is_pc_rel
+            self._state.target.isa
+            in (gtirb.Module.ISA.IA32, gtirb.Module.ISA.X64)
+            and fixup.kind_info.is_pc_rel
             and isinstance(expr, mcasm.mc.BinaryExpr)
             and expr.opcode == mcasm.mc.BinaryExpr.Opcode.Add
             and isinstance(expr.rhs, mcasm.mc.ConstantExpr)
